@@ -237,7 +237,7 @@ def gen_cases(harness, prop, tier, seed, rundir):
     with open(statsfile, "w") as sf:
         p = subprocess.Popen([harness, "gen", prop, tier, str(seed)], stdout=subprocess.PIPE, stderr=subprocess.PIPE,
                              text=True, pass_fds=(), close_fds=False,
-                             preexec_fn=lambda: os.dup2(sf.fileno(), 3))
+                             preexec_fn=lambda: (os.set_inheritable(3, True) if sf.fileno() == 3 else os.dup2(sf.fileno(), 3)))
         so, se = p.communicate(timeout=3600)
     if p.returncode != 0:
         raise SystemExit("harness gen failed: " + se[-2000:])
